@@ -767,9 +767,12 @@ PROPS = {
     "C06": {"uses_genconsts": True, "trusted_extra": ["database/sql convertAssign for int64 / NULL sources specified in coq/Model/Scan.v (conv), validated by this run"],
             "runs": [{"kind": "scan", "n": {"quick": 5000, "thorough": 200000}, "oracle_props": ["C06"]}]},
     "C17": {"uses_genconsts": True, "trusted_extra": ["SQLite 3 via github.com/mattn/go-sqlite3 v1.14.16 (cgo): the engine the round trips run on"],
-            "runs": [{"kind": "sqlite", "n": {"quick": 400, "thorough": 20000}, "oracle_props": ["C17"]}]},
+            "runs": [{"kind": "sqlite", "n": {"quick": 400, "thorough": 20000}, "oracle_props": ["C17"]},
+                     # the statement that is executed is the one generated for the call's arguments, also under concurrent use
+                     cache_run_spec(proj_cache_events, ["C17"], nq=60, nt=600)]},
     "C16": {"uses_genconsts": True,
-            "runs": [bind_run(proj_bind_c03, ["C16"], nq=3000), {"kind": "determ", "n": {"quick": 600, "thorough": 20000}, "oracle_props": ["C16"]}]},
+            "runs": [bind_run(proj_bind_c03, ["C16"], nq=3000), {"kind": "determ", "n": {"quick": 600, "thorough": 20000}, "oracle_props": ["C16"]},
+                     cache_run_spec(proj_cache_events, ["C16"], nq=60, nt=600)]},
     "C18": {"uses_genconsts": True,
             "runs": [{"kind": "parse", "mode": "c01", "n": {"quick": 6000, "thorough": 500000}, "project": proj_parse_total,
                       "exhaustive": {"quick": 3, "thorough": 5}, "oracle_props": ["C18"], "rule": PARSE_RULE},
@@ -787,12 +790,17 @@ PROPS = {
                      {"kind": "scan", "n": {"quick": 3000, "thorough": 100000}, "oracle_props": ["C13"], "project": proj_scan_c18}]},
     "C14": {"runs": [iter_run_spec(proj_iter_full, ["C14"])]},
     "C15": {"runs": [iter_run_spec(proj_iter_c15, ["C15"]),
-                     {"kind": "scan", "n": {"quick": 3000, "thorough": 100000}, "oracle_props": ["C15"], "project": proj_scan_getall}]},
+                     # at value level: what Get stores (first row) and what GetAll appends, for every destination type of the zoo
+                     {"kind": "scan", "n": {"quick": 3000, "thorough": 100000}, "oracle_props": ["C15"]}]},
     "C03": {"uses_genconsts": True, "runs": [bind_run(proj_bind_c03, ["C03"]),
                                              {"kind": "determ", "n": {"quick": 300, "thorough": 10000}, "oracle_props": ["C03"]}]},
-    "C04": {"uses_genconsts": True, "runs": [bind_run(proj_bind_c04, ["C04"])]},
-    "C05": {"uses_genconsts": True, "runs": [bind_run(proj_bind_c05, ["C05"]), tx_run_spec(["C05"], compare=True, nq=200)]},
-    "C07": {"uses_genconsts": True, "runs": [bind_run(proj_bind_c07, ["C07"], nq=8000)]},
+    "C04": {"uses_genconsts": True, "runs": [bind_run(proj_bind_c04, ["C04"]), cache_run_spec(proj_cache_events, ["C04"], nq=60, nt=600)]},
+    "C05": {"uses_genconsts": True, "runs": [bind_run(proj_bind_c05, ["C05"]), tx_run_spec(["C05"], compare=True, nq=200),
+                                             # "an alias ... identifies its destination": the aliases of the generated SQL, read back as
+                                             # result columns, lead to the destinations (also with other Queries built in between)
+                                             {"kind": "scan", "n": {"quick": 2000, "thorough": 50000}, "oracle_props": ["C05"]}]},
+    "C07": {"uses_genconsts": True, "runs": [bind_run(proj_bind_c07, ["C07"], nq=8000),
+                                             {"kind": "determ", "n": {"quick": 300, "thorough": 10000}, "oracle_props": ["C07"]}]},
     "C08": {"uses_genconsts": True, "runs": [bind_run(proj_bind_c08, ["C08"]),
                                              {"kind": "determ", "n": {"quick": 300, "thorough": 10000}, "oracle_props": ["C08"]}]},
     "C01": {
@@ -800,6 +808,10 @@ PROPS = {
         "runs": [
             {"kind": "parse", "mode": "c01", "n": {"quick": 6000, "thorough": 300000}, "project": proj_parse_full,
              "exhaustive": {"quick": 3, "thorough": 5}, "oracle_props": ["C01"], "rule": PARSE_RULE},
+            # through Prepare, Query and the driver: the SQL the driver receives, piece by piece
+            bind_run(proj_bind_c05, ["C01"], nq=3000, nt=100000),
+            # ... and the statement that is executed is the one generated for this call, also under concurrent use
+            cache_run_spec(proj_cache_events, ["C01"], nq=60, nt=600),
         ],
     },
     "C02": {
